@@ -85,10 +85,14 @@ claim('C04',
       'prefactors, kT; enumerated lengths, every np.min path): outputs unchanged under a common energy shift of one species and its '
       'transition states, joint prefactor scaling, and (kT,E)->(lambda kT, lambda E); (b) real Interstitial.diffusivity executed on '
       'related symbolic inputs: common shift and joint prefactor scaling leave D unchanged, scaling every transition prefactor by '
-      'lambda>0 scales D by lambda (QF_NRA, all inputs).',
-      'Lij homogeneity/invariance itself and invariance under intra-cell site displacement are NOT covered (numerical Green function / '
-      'two different crystals). Interstitial part on exact verification crystals, solve branch in quick tier (pinv branch: thorough, '
-      'may be inconclusive); solve/pinv contracts include uniqueness instances.',
+      'lambda>0 scales D by lambda (QF_NRA, all inputs); (c) real VacancyMediated.Lij executed twice on fully symbolic inputs with an '
+      'ABSTRACT Green-function calculator (arbitrary values per query, arbitrary bare diffusivity and bias correction): all rates '
+      'multiplied by lambda multiplies all four tensors by lambda (rational identities decided after clearing denominators).',
+      'Lij part: the scaling relation of the Green function itself (G -> G/lambda, D -> lambda D) is the CONTRACT of the abstract '
+      'calculator, not decided here (it belongs to C10); square and simple-cubic calculators, standard omega2 branch (the large-omega2 '
+      'branch needs eigh of a lambda-dependent matrix: its path is reported out-of-model). Invariance under intra-cell site '
+      'displacement is NOT covered (two different crystals). Interstitial part on exact verification crystals, solve branch in '
+      'quick tier (pinv branch: thorough, may be inconclusive); solve/pinv contracts include uniqueness instances.',
       'DESIGN.md 3/C04')
 
 claim('C05',
@@ -103,14 +107,15 @@ claim('C05',
 
 claim('C14',
       'Bounded symbolic verification of purity by uninterpreted abstraction: the real VacancyMediated.Lij runs on fully symbolic '
-      'inputs in call sequences (same input twice with in-place edits of every returned array by arbitrary symbolic amounts; another '
-      'symbolic input in between; cache cleared in between; edit + clear), both omega2 algorithms; LAPACK, exp, sqrt and the '
-      'Green-function calculator are memoised uninterpreted functions, the real cache-key hash/equality run on the symbolic arrays; '
-      'every later answer is compared term-wise with the first by z3, so hidden state, aliasing with caller-visible arrays or a '
-      'stale cache is a satisfiable difference.',
+      'inputs in call histories written as programs over two inputs (calls, in-place edits of the arrays returned by ANY earlier call '
+      'by arbitrary symbolic amounts, cache clears: x E0 x | x y x y | x C x | x E0 C x | x x E1 x | x y E1 x y, four longer ones in '
+      'the thorough tier), both omega2 algorithms; LAPACK, exp, sqrt and the Green-function calculator are memoised uninterpreted '
+      'functions, the real cache-key hash/equality run on the symbolic arrays; EVERY answer of a history is compared term-wise by z3 '
+      'with the answer of a fresh deep copy of the calculator, so hidden state, aliasing with caller-visible arrays or a stale cache '
+      'is a satisfiable difference.',
       'Decides data-flow purity, not numerical values. GF calculator modelled as an environment (function of the rates; fresh arrays '
       'per SetRates; Diffusivity()/biascorrection() return stored arrays as the real one does). Raw-bytes hashing modelled as equal '
-      'iff all numbers equal. Calculators enumerated (square, SC quick; + rect-2-site, square Nthermo=2 thorough); <=4 calls. '
+      'iff all numbers equal (inputs in [1/16, 8], so +0.0 / -0.0 cannot meet). Calculators enumerated (square, SC quick; + rect-2-site, square Nthermo=2 thorough); <=4 calls. '
       'Reload histories are in C13. One defect found and fixed (L0vv aliasing).',
       'DESIGN.md 3/C14, 2.3')
 
@@ -216,10 +221,12 @@ claim('C25',
       'Bounded symbolic verification on enumerated crystals/networks/shells (origin states on): per star, for a SYMBOLIC vector, invariant '
       'under the stabiliser of the representative <=> in the span of that star\'s vectors (both directions), count == invariant dimension, '
       'orthonormality, equivariance under EVERY operation carrying the representative to a member; for SYMBOLIC Green-function star values '
-      'and omega1 rates, the contraction of GFexpansion, rate1expansion, rate1escape, bias1expansion, D1expansion equals the direct '
-      'state-space assembly projected on the vector stars (QF_LRA).',
-      'Crystal list includes a chiral 222 crystal and cells with C1 sites; GF values assumed symmetric under end-point swap; omega0/omega2 '
-      'variants and the origin-state fold-down are not covered. One defect found and fixed (2-fold rotation about dx).',
+      'and omega0 / omega1 / omega2 rates, the contraction of GFexpansion, the rate / escape / bias / bare expansions (omega1, the '
+      'omega0 reference, and omega2 with origin states hijacked) equals the direct state-space assembly projected on the vector '
+      'stars; outer contracted with a symbolic coefficient vector on either side equals the direct sum of outer products; the '
+      'origin-state fold-down (solute and vacancy) equals its direct assembly (QF_LRA).',
+      'Crystal list includes a chiral 222 crystal and cells with C1 sites; GF values assumed symmetric under end-point swap. '
+      'One defect found and fixed (2-fold rotation about dx).',
       'DESIGN.md 3/C25')
 
 claim('C13',
@@ -228,7 +235,8 @@ claim('C13',
       'in-memory store with the h5py contract: cache dictionaries holding ARBITRARY symbolic arrays under symbolic keys come back entry by '
       'entry; a reloaded calculator (cache populated or empty) gives term-identical Lij for the same and for a further symbolic input '
       '(uninterpreted abstraction as in C14), equal tags; Taylor coefficients and evaluations identical; star sets, vector star sets and '
-      'the Green-function calculator compared attribute by attribute.',
+      'the Green-function calculator compared attribute by attribute, and so are the reloaded VacancyMediated and GFCrystalcalc '
+      'objects (every attribute both have: nested lists, arrays, star sets).',
       'HDF5 modelled by a stub (replays use real h5py, core driver); YAML half of the property NOT covered; calculators enumerated; '
       'vacancy/solute site energies fixed to zero in the Lij round trip.',
       'DESIGN.md 3/C13, 2.3')
